@@ -34,6 +34,11 @@ TABLES = [
     ('T8e', 'get_attack_surface', ('C12',)),
     ('T8f', 'update_attack_surface_add_nodes', ('C12',)),
     ('T10', 'LanguageGraph._get_attacks_for_asset_type', ('C03', 'C02')),
+    ('T11a', 'LanguageClassesFactory._generate_assets', ('C06',)),
+    ('T11b', 'LanguageClassesFactory._generate_associations', ('C06',)),
+    ('T11c', 'LanguageClassesFactory.get_association_by_signature', ('C06', 'C18')),
+    ('T12a', 'Model._validate_association', ('C06',)),
+    ('T12b', 'Model.add_association', ('C06', 'C05')),
 ]
 STRIP_COPIES = {'T10'}
 # small pure methods that may be inlined into their callers
@@ -67,9 +72,10 @@ def run(ctx) -> list[Inst]:
             c = prog.classes.get(cn)
             if c is not None and mn in c.methods:
                 inline[mn] = c.methods[mn].node
-        for g in f.module.functions.values():
-            if g.name not in OPAQUE and g is not f:
-                inline[g.name] = g.node
+        if f.cls is None:
+            for g in f.module.functions.values():
+                if g.name not in OPAQUE and g is not f:
+                    inline[g.name] = g.node
         construct = f'{tid}: decision table of {rname} equals the reference'
         rel = f.module.relpath
         try:
